@@ -237,3 +237,31 @@ Theorem C02_pod_command_shape : forall podman mount_nl u path tbl svc sp t',
                               ++ [s2l "pod"; s2l "create"; s2l "--infra-conmon-pidfile=%t/%N.pid"; s2l "--pod-id-file=%t/%N.pod-id"; s2l "--exit-policy=stop"; s2l "--replace"]
                               ++ mid ++ lookup_all_args u c_POD_SECTION (s2l "PodmanArgs"))].
 Proof. exact pod_shape. Qed.
+
+Theorem C02_kube_command_shape : forall podman kill_fixed u path tbl svc sp t',
+  from_kube podman kill_fixed u path tbl = COk (svc, sp, t') ->
+  exists before mods mid yaml,
+    @lk_all berr u c_KUBE_SECTION (s2l "ContainersConfModule") = COk mods /\
+    vals svc SEC_S (s2l "ExecStart") =
+      before ++ [quote_words (global_words podman mods u c_KUBE_SECTION ++ [s2l "kube"; s2l "play"; s2l "--replace"; s2l "--service-container=true"] ++ mid
+                              ++ lookup_all_args u c_KUBE_SECTION (s2l "PodmanArgs") ++ [yaml])].
+Proof. exact kube_shape. Qed.
+
+Theorem C02_build_command_shape : forall podman mount_nl u path tbl svc sp t',
+  from_build podman mount_nl u path tbl = COk (svc, sp, t') ->
+  exists before mods mid tail,
+    @lk_all berr u c_BUILD_SECTION (s2l "ContainersConfModule") = COk mods /\
+    (tail = [] \/ exists x, tail = [x]) /\
+    vals svc SEC_S (s2l "ExecStart") =
+      before ++ [quote_words (global_words podman mods u c_BUILD_SECTION ++ [s2l "build"] ++ mid ++ lookup_all_args u c_BUILD_SECTION (s2l "PodmanArgs") ++ tail)].
+Proof. exact build_shape. Qed.
+
+Theorem C02_volume_command_shape : forall podman u path tbl svc sp t',
+  from_volume podman u path tbl = COk (svc, sp, t') ->
+  exists before mods mid name,
+    @lk_all berr u c_VOLUME_SECTION (s2l "ContainersConfModule") = COk mods /\
+    volume_name u path = COk name /\
+    vals svc SEC_S (s2l "ExecStart") =
+      before ++ [quote_words (global_words podman mods u c_VOLUME_SECTION ++ [s2l "volume"; s2l "create"; s2l "--ignore"] ++ mid
+                              ++ lookup_all_args u c_VOLUME_SECTION (s2l "PodmanArgs") ++ [name])].
+Proof. exact volume_shape. Qed.
